@@ -6,7 +6,7 @@ import json, os, re, subprocess, sys, time
 REPO = os.environ.get('VERIF_REPO', '/repo')
 if REPO != '/repo':
     os.environ.setdefault('VERIF_EVIDENCE', '/tmp/verif-scratch-evidence')   # a scratch worktree can stand in for /repo (the checks honour VERIF_REPO too)
-V = '/verif'
+V = os.path.dirname(os.path.dirname(os.path.abspath(__file__)))   # runs from a snapshot of /verif too
 flt = sys.argv[1] if len(sys.argv) > 1 else ''
 known = json.load(open(V + '/known_findings.json'))
 cases = []
